@@ -947,6 +947,33 @@ func tableLenForm(r *Run, mm *core.MapModel, v ssa.Value) (string, bool) {
 				return "result of " + fn(cal) + " (" + strings.TrimSuffix(desc, "; ") + ")", okAll
 			}
 		}
+	case *ssa.Extract:
+		// one result of a sizing helper that returns several (new length, ok)
+		if call, isCall := x.Tuple.(*ssa.Call); isCall {
+			if cal := core.Callee(call); cal != nil && cal.Blocks != nil && cal.Pkg == r.P.Xsync {
+				okAll, n := true, 0
+				desc := ""
+				core.Instrs(cal, func(in ssa.Instruction) {
+					ret, isRet := in.(*ssa.Return)
+					if !isRet || x.Index >= len(ret.Results) {
+						return
+					}
+					// a give-up return (constant 0 together with a false flag) never sizes a table
+					if k, isK := core.ConstInt(ret.Results[x.Index]); isK && k == 0 {
+						return
+					}
+					n++
+					d, ok := tableLenForm(r, mm, core.StripConv(ret.Results[x.Index]))
+					if !ok {
+						okAll = false
+					}
+					desc += d + "; "
+				})
+				if n > 0 {
+					return "result of " + fn(cal) + " (" + strings.TrimSuffix(desc, "; ") + ")", okAll
+				}
+			}
+		}
 	case *ssa.Parameter:
 		return "parameter", true
 	}
@@ -1049,21 +1076,39 @@ func c11L4(r *Run, rep *core.Report) {
 		}
 		rz := mm.Resize
 		rep.Spec(fn(rz) + sp.String(rz))
-		reach := sp.Reachable(rz)
 		nNew := 0
 		okMin := true
-		core.Instrs(rz, func(in ssa.Instruction) {
-			if !reach[in.Block()] {
-				return
-			}
-			if c, isCall := in.(*ssa.Call); isCall && core.Callee(c) == mm.NewTable {
-				nNew++
-				ld, isLd := core.StripConv(c.Call.Args[0]).(*ssa.UnOp)
-				if !isLd || core.Addr(ld.X).Owner != mm.Name {
-					okMin = false
+		// the table may be built in resize itself or in a sizing helper it calls with the hint: follow in-package
+		// callees with the specialisation the arguments give them
+		var scan func(f *ssa.Function, fsp core.Spec, depth int)
+		scan = func(f *ssa.Function, fsp core.Spec, depth int) {
+			reach := fsp.Reachable(f)
+			core.Instrs(f, func(in ssa.Instruction) {
+				if !reach[in.Block()] {
+					return
 				}
-			}
-		})
+				c, isCall := in.(*ssa.Call)
+				if !isCall {
+					return
+				}
+				cal := core.Callee(c)
+				if cal == mm.NewTable {
+					nNew++
+					arg := resolveUnderSpec(fsp, core.StripConv(c.Call.Args[0]))
+					ld, isLd := core.StripConv(arg).(*ssa.UnOp)
+					if !isLd || core.Addr(ld.X).Owner != mm.Name {
+						okMin = false
+					}
+					return
+				}
+				if cal != nil && cal.Pkg == r.P.Xsync && cal.Blocks != nil && depth < 2 && cal != mm.Copy && cal != mm.Wait && !r.M.Acquire[cal] && !r.M.Release[cal] {
+					if csp := fsp.SpecFor(c, cal); len(csp) > 0 {
+						scan(cal, csp, depth+1)
+					}
+				}
+			})
+		}
+		scan(rz, sp, 0)
 		rep.Check(nNew == 1 && okMin, "C11.L4", fn(rz)+sp.String(rz)+" fresh minimum table", r.P.Pos(rz.Pos()), "Clear builds exactly one fresh table of the recorded minimum length", "under the clear hint resize does not build exactly one fresh table of the map's minimum length: the contents after Clear would depend on history")
 	}
 }
@@ -1321,4 +1366,45 @@ func missEdgeOfAnyLoad(mm *core.MapModel, b *ssa.BasicBlock) bool {
 		}
 	})
 	return found
+}
+
+// resolveUnderSpec: a result of an in-package helper, when the helper has exactly one return reachable under the
+// specialisation its arguments give it, is the value returned there.
+func resolveUnderSpec(sp core.Spec, v ssa.Value) ssa.Value {
+	ex, ok := v.(*ssa.Extract)
+	var call *ssa.Call
+	idx := 0
+	if ok {
+		call, _ = ex.Tuple.(*ssa.Call)
+		idx = ex.Index
+	} else if c, isCall := v.(*ssa.Call); isCall {
+		call = c
+	}
+	if call == nil {
+		return v
+	}
+	cal := core.Callee(call)
+	if cal == nil || cal.Blocks == nil {
+		return v
+	}
+	csp := sp.SpecFor(call, cal)
+	if len(csp) == 0 {
+		return v
+	}
+	reach := csp.Reachable(cal)
+	var only ssa.Value
+	n := 0
+	for _, b := range cal.Blocks {
+		if !reach[b] {
+			continue
+		}
+		if ret, isRet := b.Instrs[len(b.Instrs)-1].(*ssa.Return); isRet && idx < len(ret.Results) {
+			n++
+			only = ret.Results[idx]
+		}
+	}
+	if n == 1 {
+		return core.StripConv(only)
+	}
+	return v
 }
